@@ -9,6 +9,8 @@ InitAll == {WithTarget, Sentinels, TargetIsFile}
 InitPlain == {WithTarget, Sentinels}
 
 PlainNames == { <<"a">>, <<"b">>, <<"f", "DOT", "x">> }
+PlainNames2L == { <<"a">>, <<"L">> }
+ExtsQ == { {}, {<<"DOT", "x">>} }
 PlainNamesL == { <<"a">>, <<"b">>, <<"f", "DOT", "x">>, <<"L">> }
 HostileNames == { <<"a">>, <<"DOT">>, <<"DOT", "DOT">>, <<"a", "SL", "b">>, <<"SL", "a">>, <<"DOT", "DOT", "SL", "a">> }
 \* dry-run: names that become files under some extension list, and hostile names
@@ -16,7 +18,7 @@ DryNames == { <<"a">>, <<"f", "DOT", "x">>, <<"DOT", "DOT">>, <<"a", "SL", "b">>
 Exts4 == { {}, {<<"DOT", "x">>}, {<<"f", "DOT", "x">>}, {<<"x">>, <<"DOT", "x">>}, {<<"b">>}, {<<"x">>}, {<<>>} }
 Exts2 == { {}, {<<"a">>} }
 ExtsX == { {<<"DOT", "x">>} }
-Suffix1 == { <<"e">>, <<"f">> }   \* "f" is a proper prefix of the required name "f.x"
+Suffix1 == { <<"e">>, <<"f">>, <<"A">> }   \* "A": the required name "a" in another letter case   \* "f" is a proper prefix of the required name "f.x"
 NoSuffix == {}
 Long == {"L"}
 =============================================================================
